@@ -4,6 +4,8 @@ var registry = map[string][]HarnessDef{}
 
 func reg(prop string, defs ...HarnessDef) { registry[prop] = append(registry[prop], defs...) }
 
+func thor(d HarnessDef) HarnessDef { d.Tier = "thorough"; return d }
+
 func init() {
 	reg("C08",
 		HarnessDef{ID: "H8.2a", Spec: HarnessSpec{Name: "vH_C08_ts_session", Pkg: "pkg/protocol", LoopBound: 8, TimeoutS: 120}, ReplayFn: "vR_C08_ts_session",
@@ -84,7 +86,7 @@ func init() {
 	}
 	rot := map[string]string{"github.com/enfein/mieru/v3/pkg/protocol.rotateLowEntropyMask": "vStubRotateTable"}
 	rtN := func(name, id string, tier string) HarnessDef {
-		return HarnessDef{ID: id, Tier: tier, Spec: HarnessSpec{Name: name, Pkg: "pkg/protocol", LoopBound: 40, LoopBounds: lb17, TimeoutS: 120, Par: 6, Redirects: rot},
+		return HarnessDef{ID: id, Tier: tier, Spec: HarnessSpec{Name: name, Pkg: "pkg/protocol", LoopBound: 40, LoopBounds: lb17, TimeoutS: 900, Par: 6, Redirects: rot},
 			What:   "multi-chunk encode/decode (real loops): every body length 1..4C+1 (case split), symbolic contents, padding bit and rotation; each chunk equals the documented bit-by-bit encoding under that chunk's mask, decode(encode(src)) == src, the codec passes (mask, rotation, chunk index) unchanged to the rotation",
 			Bounds: "N <= 4C+1 (5 chunks, last partial); per-chunk masks are 6 concrete repeated half masks of the mode's weight returned by a stub of rotateLowEntropyMask (contract decided by H17.4)", Outside: "bodies longer than 4C+1 bytes (only through the per-chunk argument); masks other than the table's in this harness (H17.3a covers every mask for one chunk)"}
 	}
@@ -94,7 +96,7 @@ func init() {
 			Bounds: "one chunk (N <= C), all 2^32 half masks of the required weight, both padding bits, every valid rotation value", Outside: "chunk index > 0 is covered through H17.4 (every later mask is again a repeated half mask of the same weight)"}
 	}
 	canN := func(name, id, tier string) HarnessDef {
-		return HarnessDef{ID: id, Tier: tier, Spec: HarnessSpec{Name: name, Pkg: "pkg/protocol", LoopBound: 40, LoopBounds: lb17, TimeoutS: 120, Par: 6, Redirects: rot},
+		return HarnessDef{ID: id, Tier: tier, Spec: HarnessSpec{Name: name, Pkg: "pkg/protocol", LoopBound: 40, LoopBounds: lb17, TimeoutS: 900, Par: 6, Redirects: rot},
 			What:   "canonicity, several chunks: for every body length 1..2C+1 and EVERY byte string of the matching encoded length, if the real decoder accepts it then it equals the real encoder's output for the decoded body with padding bit 0 or 1 (incl. unused mask-selected positions of a partial last chunk); inconsistent encoded/extracted lengths are rejected",
 			Bounds: "N <= 2C+1 (3 chunks), concrete per-chunk mask table (stub of rotateLowEntropyMask), every rotation value, all byte strings", Outside: "longer bodies; other masks (H17.6c covers every mask for one chunk)"}
 	}
@@ -105,10 +107,10 @@ func init() {
 	}
 	reg("C17",
 		mx("vH_C17_pdepGeneric_rec", "H17.1a", "pdepGeneric satisfies the PDEP recursion on the lowest mask bit (this defines PDEP)", 240),
-		mx("vH_C17_pextGeneric_p1", "H17.2a", "pextGeneric: PDEP(PEXT(x,m),m) == x&m", 400),
+		thor(mx("vH_C17_pextGeneric_p1", "H17.2a", "pextGeneric: PDEP(PEXT(x,m),m) == x&m", 900)),
 		mx("vH_C17_pextGeneric_p2", "H17.2b", "pextGeneric: PEXT(x,m) < 2^popcount(m)", 240),
 		mx("vH_C17_pdepBMI2_rec", "H17.1b", "bit_amd64.s pdepBMI2 (parsed from the .s file, SDM semantics): same recursion", 240),
-		mx("vH_C17_pextBMI2_p1", "H17.2c", "bit_amd64.s pextBMI2: PDEP(PEXT(x,m),m) == x&m", 400),
+		thor(mx("vH_C17_pextBMI2_p1", "H17.2c", "bit_amd64.s pextBMI2: PDEP(PEXT(x,m),m) == x&m", 900)),
 		mx("vH_C17_pextBMI2_p2", "H17.2d", "bit_amd64.s pextBMI2: PEXT(x,m) < 2^popcount(m)", 240),
 		mx("vH_C17_pdep_direct32", "H17.1c", "pdepGeneric == bit-by-bit PDEP for masks < 2^32 (induction-free cross-check)", 240),
 		mx("vH_C17_pext_direct32", "H17.2e", "pextGeneric == bit-by-bit PEXT for masks < 2^32", 240),
@@ -121,12 +123,15 @@ func init() {
 			What: "lowEntropyChunkMask errors exactly on invalid rotation values or negative chunk index", Bounds: "all int32 rotation values, all int chunk indices", Outside: "-"},
 		HarnessDef{ID: "H17.5", Spec: HarnessSpec{Name: "vH_C17_lenlaw", Pkg: "pkg/protocol", LoopBound: 8, TimeoutS: 120},
 			What: "lowEntropyEncodedPayloadLen(N, mode) == ceil(N/C)*8; error exactly for invalid mode, N <= 0 or more than 8191 chunks; no uint16 overflow", Bounds: "all 2^64 N, all int32 modes", Outside: "-"},
-		rtN("vH_C17_roundtripN_m32", "H17.3b-32", ""), rtN("vH_C17_roundtripN_m56", "H17.3b-56", ""),
+		rtN("vH_C17_roundtripN_m32", "H17.3b-32", "thorough"), rtN("vH_C17_roundtripN_m56", "H17.3b-56", "thorough"),
+		HarnessDef{ID: "H17.3q", Spec: HarnessSpec{Name: "vH_C17_roundtripQ_m56", Pkg: "pkg/protocol", LoopBound: 40, LoopBounds: lb17, TimeoutS: 240, Par: 6, Redirects: rot},
+			What:   "quick cut of the multi-chunk round trip: mode 56 (C = 7), every body length 1..9 (one full chunk, the chunk boundary, a partial second chunk), symbolic contents, padding bit and rotation: each chunk equals the documented bit-by-bit encoding under that chunk's mask, decode(encode(src)) == src",
+			Bounds: "N <= 9, mode 56, per-chunk mask table via the rotation stub (contract decided by H17.4)", Outside: "other modes and longer bodies: H17.3b-* (thorough); canonicity: H17.6b/c (thorough)"},
 		rtN("vH_C17_roundtripN_m40", "H17.3b-40", "thorough"), rtN("vH_C17_roundtripN_m48", "H17.3b-48", "thorough"),
-		rt1("vH_C17_roundtrip1_m56", "H17.3a-56", "", 300),
+		rt1("vH_C17_roundtrip1_m56", "H17.3a-56", "thorough", 900),
 		HarnessDef{ID: "H17.6a", Spec: HarnessSpec{Name: "vH_C17_validate_metadata", Pkg: "pkg/protocol", LoopBound: 8, TimeoutS: 120},
 			What: "validateLowEntropyDataAckMetadata accepts exactly the mutually consistent (type, mode, mask weight, rotation, payloadLen, extractedPayloadLen) tuples", Bounds: "all field values", Outside: "-"},
-		canN("vH_C17_canonN_m32", "H17.6b-32", ""), canN("vH_C17_canonN_m56", "H17.6b-56", ""),
+		canN("vH_C17_canonN_m32", "H17.6b-32", "thorough"), canN("vH_C17_canonN_m56", "H17.6b-56", "thorough"),
 		canN("vH_C17_canonN_m40", "H17.6b-40", "thorough"), canN("vH_C17_canonN_m48", "H17.6b-48", "thorough"),
 		can1("vH_C17_canon1_m56", "H17.6c-56", "thorough"), can1("vH_C17_canon1_m32", "H17.6c-32", "thorough"),
 		rt1("vH_C17_roundtrip1_m32", "H17.3a-32", "thorough", 900), rt1("vH_C17_roundtrip1_m40", "H17.3a-40", "thorough", 900), rt1("vH_C17_roundtrip1_m48", "H17.3a-48", "thorough", 900),
